@@ -62,6 +62,7 @@ func HarnessC03Files() {
 var c03Files = []string{
 	"a\n!a", "!a\na", "a/\n!a/b", "*\n!a", "a*\n!ab\nab/", "/a\n!b\na", "# c\n\na\n", "**/b\n!a/b", "a/**\n!a/b/", "!.terraform/\n.terraform/modules/",
 	"!.git/\n.git/a", "?\n!a", "a/*\n!a/b", "*/b\n!a/b\n/a/b", "a\n\n  \n!a ", ".terraform\n!.terraform/a",
+	"a/\n!a/b\nb", "*\n!a\na", "a**", "!a\nb\n!b\nb",
 }
 
 func c03Check(lines []string, path string) {
